@@ -16,12 +16,22 @@ F_TOL = mpf(10) ** -9
 
 
 class Mode:
+    """mp: 60-digit object vectors; f64: float64 object vectors; numpy / awkward: the same laws on one-element arrays
+    (every public call then goes through the array backend's dispatch, broadcasting and result wrapping)"""
+
     def __init__(self, name):
         self.name = name
         self.mp = name == "mp"
 
     def vec(self, l):
-        return E.mat_mp(l) if self.mp else E.mat_obj(l)
+        if self.mp:
+            return E.mat_mp(l)
+        if self.name == "numpy":
+            return B.mk_numpy_cls(l.system, [l.f64()[0]], l.momentum)
+        if self.name == "awkward":
+            mom = l.momentum and any(B.MOM_SPELL[x] for x in R.field_names(l.system))
+            return B.mk_awk(l.system, [l.f64()[0]], mom)
+        return E.mat_obj(l)
 
     def num(self, x):
         return Q(x) if self.mp else float(x)
@@ -31,15 +41,40 @@ class Mode:
 
 
 def rv_of(v):
-    """canonical Cartesian value of an object-vector result (own readout, own conversions)"""
-    system, stored = B.obj_stored(v)
-    return B.to_rv(system, stored), system
+    """canonical Cartesian value of an object-vector result, or of the single element of a one-element array
+    (own readout, own conversions)"""
+    from vector.backends.object import VectorObject
+
+    if isinstance(v, VectorObject):
+        system, stored = B.obj_stored(v)
+        return B.to_rv(system, stored), system
+    _, system, cols, _, n = B.stored_columns(v)
+    if n != 1:
+        raise ValueError(f"law operand/result has {n} elements, expected one")
+    return B.to_rv(system, [c[0] for c in cols]), system
 
 
 def num_of(x):
     if type(x) is Q:
         return x.v
-    return mpf(float(x))
+    if isinstance(x, (int, float)):
+        return mpf(x)
+    try:
+        import awkward as ak
+
+        if isinstance(x, ak.Array):
+            flat = ak.to_list(ak.flatten(x, axis=None))
+            if len(flat) != 1:
+                raise ValueError(f"scalar law result has {len(flat)} elements")
+            return mpf(float(flat[0]))
+    except ImportError:  # pragma: no cover
+        pass
+    import numpy
+
+    a = numpy.asarray(x)
+    if a.size != 1:
+        raise ValueError(f"scalar law result has {a.size} elements")
+    return mpf(float(a.reshape(-1)[0]))
 
 
 def vec_err(a, b, scale):
